@@ -96,8 +96,22 @@ def run(ck):
             i += k
             bid += 1
             behaviours.append({"id": bid, "mode": "rw" if writable else "ro", "steps": seq})
+    # the complete product of the multi_quoted corpus (literal / identifier / comment style of the leading SELECT that hides the first
+    # ';' x trailing statement x decoy "limit n"), verbatim, on a writable pool: these texts differ in exactly the features a
+    # quote-aware separator scan can get wrong, so sampling them is not enough
+    sweep = [t for t in daisen_sql.multi_quoted_texts() if not quick or (" ; " in t[0] and t[1].endswith("/decoy"))]
+    for j in range(0, len(sweep), 14):
+        bid += 1
+        seq = [{"op": "probe"}]
+        for text, tag in sweep[j:j + 14]:
+            seq.append({"op": "tool", "class": "multi_quoted", "when": "none", "conn": 1 + (j // 14) % 2, "overlap": False, "sql": text,
+                        "deadline_ms": -1, "live": False, "note": tag})
+        seq.append({"op": "probe"})
+        behaviours.append({"id": bid, "mode": "rw", "steps": seq})
+    ck.cov["multi_quoted_sweep"] = len(sweep)
+
     # the tool's own timeout (no caller deadline at all) on an endless query
-    n_nat = 1 if quick else 3
+    n_nat = 0 if quick else 3      # 15 s each: thorough only
     for j in range(n_nat):
         bid += 1
         sql = daisen_sql.vary(ck.rng, daisen_sql.SEEDS["endless"][j % 2])
@@ -125,8 +139,8 @@ def run(ck):
     ck.cov["rule"] = ("Each TLC case (query class x when the caller's deadline fires x pooled connection x concurrent server write x "
                       "pool writable) is bound to concrete SQL and run through the real data_query tool closure on a copy of a real trace "
                       "database with a 2-connection pool. Judged after every call: SHA-256 of the database and -wal files and an "
-                      "independent content digest unchanged, no file added/removed in the database directory, the working directory "
-                      "or TMPDIR, reported rows <= 1000 and CSV bytes <= 65536, and - on every pooled connection - read, write and the "
+                      "independent content digest (schema, rows, user_version, journal mode) unchanged, no file added/removed anywhere below "
+                      "the server's scratch tree (database directory with its -wal/-shm siblings, working directory, TMPDIR), reported rows <= 1000 and CSV bytes <= 65536, and - on every pooled connection - read, write and the "
                       "server's real ensureIndex behave as in the probe taken before the first call. Plain reads without deadline must "
                       "return rows. Non-trivial = a tool call whose text is not a plain read, or whose deadline fired.")
     ck.assumptions += ["trace database produced by the real simulation builder + DBTracer (300 tasks, milestones, tags), copied per behaviour",
